@@ -599,6 +599,16 @@ func (mgr *Manager) inheritTagUncertainty() {
 	}
 }
 
+// invalidatedDuringTaggingJob records streams whose tag membership may have changed through
+// an edit of a tag while a tagging job is running: the job's result was computed from the old
+// state and its completion replaces the uncertainty inherited meanwhile, so the streams are
+// invalidated again when it completes.
+func (mgr *Manager) invalidatedDuringTaggingJob(streams bitmask.LongBitmask) {
+	if mgr.taggingJobRunning {
+		mgr.resetStreamsDuringTaggingJob.Or(streams)
+	}
+}
+
 func (mgr *Manager) invalidateTags(updatedStreams, resetStreams, addedStreams bitmask.LongBitmask) {
 	for tn, ti := range mgr.tags {
 		tin := *ti
@@ -1240,6 +1250,7 @@ func (mgr *Manager) UpdateTag(name string, operation UpdateTagOperation) error {
 				tag = newTag
 				mgr.tags[name] = tag
 				mgr.inheritTagUncertainty()
+				mgr.invalidatedDuringTaggingJob(mgr.allStreams)
 				mgr.startTaggingJobIfNeeded()
 				mgr.startConverterJobIfNeeded()
 			}
@@ -1336,6 +1347,7 @@ func (mgr *Manager) UpdateTag(name string, operation UpdateTagOperation) error {
 				tag = &newTag
 				mgr.tags[name] = tag
 				mgr.inheritTagUncertainty()
+				mgr.invalidatedDuringTaggingJob(newTag.Uncertain)
 				mgr.tags[name].Uncertain = prevUncertain
 				mgr.startTaggingJobIfNeeded()
 				mgr.startConverterJobIfNeeded()
